@@ -36,6 +36,22 @@ def switch_arms(sw):
     return seq
 
 
+def _has_own_break(loop):
+    """does the loop contain a break that leaves *this* loop (not a nested loop / switch)?"""
+    def go(n, depth):
+        if not isinstance(n, dict):
+            return False
+        k = n.get('k')
+        if k == 'BreakStmt':
+            return depth == 0
+        if k == 'LambdaExpr':
+            return False
+        d = depth + 1 if (k in ('WhileStmt', 'ForStmt', 'DoStmt', 'CXXForRangeStmt', 'SwitchStmt') and n is not loop) else depth
+        from .facts import kids
+        return any(go(c, d) for c in kids(n))
+    return go(loop, 0)
+
+
 def arm_of(sw, n):
     """labels of the switch arm whose statements contain node n (fall-through groups: the labels that start the group)."""
     cur = None
@@ -113,6 +129,11 @@ def enum_paths(stmt, limit=4000):
         if kind in ('AttributedStmt', 'LabelStmt'):
             c = s.get('c') or []
             return paths(c[-1]) if c else [Path(end='fall')]
+        if kind in ('WhileStmt', 'ForStmt', 'DoStmt'):
+            cond = (s.get('slots') or {}).get('cond')
+            forever = cond is None and kind == 'ForStmt' or (cond is not None and cond.get('k') == 'CXXBoolLiteralExpr' and cond.get('val'))
+            if forever and not _has_own_break(s):
+                return [Path((), (s,), 'loop', s)]      # never falls through: left only by return / throw inside (opaque here)
         return [Path((), (s,), 'fall', None)]
 
     return paths(stmt)
